@@ -72,11 +72,15 @@ Lemma join_split : forall s, join_dot (split_dot s) = s.
 Proof.
   induction s as [|c r IH]; [reflexivity|]. cbn [split_dot].
   destruct (Ascii.eqb c ".") eqn:E.
-  - apply Ascii.eqb_eq in E. subst c. cbn [join_dot].
-    destruct (split_dot r) eqn:S; [exfalso; eapply split_dot_ne; eauto|].
-    rewrite <- S. rewrite IH. reflexivity.
+  - apply Ascii.eqb_eq in E. subst c.
+    destruct (split_dot r) as [|x l] eqn:S; [exfalso; eapply split_dot_ne; eauto|].
+    change (join_dot (EmptyString :: x :: l)) with (EmptyString ++ "." ++ join_dot (x :: l)).
+    rewrite IH. reflexivity.
   - destruct (split_dot r) as [|x l] eqn:S; [exfalso; eapply split_dot_ne; eauto|].
-    cbn [join_dot] in *. destruct l; [now rewrite IH|]. simpl. now rewrite IH.
+    destruct l as [|y l'].
+    + change (join_dot [String c x]) with (String c x). change (join_dot [x]) with x in IH. now rewrite IH.
+    + change (join_dot (String c x :: y :: l')) with (String c (x ++ "." ++ join_dot (y :: l'))).
+      change (join_dot (x :: y :: l')) with (x ++ "." ++ join_dot (y :: l')) in IH. now rewrite IH.
 Qed.
 
 Lemma split_dot_inj : forall a b, split_dot a = split_dot b -> a = b.
